@@ -104,7 +104,10 @@ def render_value(out, v, lm, path):
             out.gap(gaps[i] if i < len(gaps) else None)
             lm[path + ("key", i)] = out.line
             render_value(out, key, {}, ())
+            cg = (v.get("cg") or [])
+            out.gap(cg[2 * i] if 2 * i < len(cg) else None)
             out.tok("colon", v.get("colon", ":"))
+            out.gap(cg[2 * i + 1] if 2 * i + 1 < len(cg) else None)
             render_value(out, val, {}, ())
             last = i == len(v["pairs"]) - 1
             if not last or v.get("trail"):
@@ -379,7 +382,8 @@ def tuple_values(draw):
         val = draw(st.one_of(quoted_strings(), unquoted_strings(False, ("id", "plain1", "id_plain")), int_values(), float_values(False)))
         pairs.append([{"k": "str", "v": key, "q": kq}, val])
     g = [draw(gaps(2)) for _ in range(n + 1)]
-    return {"k": "tuple", "pairs": pairs, "g": g, "trail": draw(st.booleans())}
+    cg = [draw(inline_gap()) for _ in range(2 * n)]
+    return {"k": "tuple", "pairs": pairs, "g": g, "cg": cg, "trail": draw(st.booleans())}
 
 
 def any_value(unq_classes=("id", "plain1", "id_plain", "multi_token")):
